@@ -7,6 +7,7 @@ func init() {
 		ID:    "C03",
 		Title: "@each/@for iterate in order with correct loop metadata, break/continue and @else",
 		Rules: []string{
+			"R-KINDS / R-OPTABLE: a nil slice converts to an empty array; postfix ++/-- yields a new object (no write through the operand)",
 			"R-LOOP (evaluator state): no field of an existing Evaluator is written while evaluating, except counter steps",
 			"R-BODYENTRY: every caller of the block parser, evaluated by cases on an abstract parser (token types as named unknowns), enters it only on a token it has looked at and that is not END / ELSE / ELSE_IF — an empty body is an empty block, not the enclosing construct's closer",
 			"R-LOOP: in evalEachStmt/evalForStmt the break test follows the body evaluation on every path to the next pass, its true edge leaves the loop, the pass's output is written first; @each is an ascending range over the array's elements, binds the element through Set, and its loop object is exactly {index: i, iter: i+1, first: i==0, last: i==n-1} (normalised linear forms); @else only for an empty array / a condition false at entry; loops return rendered text, @else bodies the evaluated block; evalBlockStmt stops after the first break/continue, hasControlStmt recurses into nested blocks",
@@ -18,7 +19,9 @@ func init() {
 		NotDecided:  "TODO",
 		Assumptions: trustedBase,
 		Run: func(m *Model, s *Sink) {
-			m.RunEvalState(s, "R-LOOP") // evaluation keeps no flags between constructs
+			m.RunOpTable(s, "R-OPTABLE") // the post clause steps a fresh value, not the object its variable was copied from
+			m.RunKinds(s, "R-KINDS")     // a nil slice is an empty array: @each over it renders its @else
+			m.RunEvalState(s, "R-LOOP")  // evaluation keeps no flags between constructs
 			m.RunLoop(s, "R-LOOP")
 			m.RunScope(s, "R-SCOPE")
 			var fns []*ssa.Function
